@@ -31,6 +31,7 @@ from symtorch.taint import TS
 from nflows.nn import nets
 from nflows.transforms import made as made_t
 from nflows.distributions import normal as DN
+from nflows.nn.nde import made as made_n
 from nflows.flows import base as FB
 from nflows.transforms import standard as ST
 
@@ -356,7 +357,13 @@ def job_dist(cfg):
         t = ST.PointwiseAffineTransform(shift=0.5, scale=2.0)
         t._buffers["_shift"] = stubs.scalar("fb")
         t._buffers["_scale"] = stubs.scalar("fa", lo=0)
+        mog = made_n.MixtureOfGaussiansMADE(2, 4, num_blocks=1, num_mixture_components=2, custom_initialization=False)
+        mog.eval()
+        # the conditioner output of row i is a function of row i alone (taint job below / C06): free symbols tagged by row
+        mog_out = stubs.named_tensor("inp", (2, 2 * 3 * 2))
+        mog.forward = lambda inputs, context=None: mog_out
         items = [
+            ("MixtureOfGaussiansMADE.log_prob", lambda: mog.log_prob(x)),
             ("StandardNormal.log_prob", lambda: DN.StandardNormal([2]).log_prob(x)),
             ("ConditionalDiagonalNormal.log_prob", lambda: DN.ConditionalDiagonalNormal([2]).log_prob(x, context=ctx)),
             ("Flow.log_prob", lambda: FB.Flow(t, DN.ConditionalDiagonalNormal([2])).log_prob(x, context=ctx)),
@@ -398,10 +405,27 @@ def replay_dist(name):
             "Flow.log_prob": lambda a, c: FB.Flow(t, DN.ConditionalDiagonalNormal([2])).log_prob(a, context=c),
             "Flow.transform_to_noise": lambda a, c: FB.Flow(t, DN.StandardNormal([2])).transform_to_noise(a),
         }
+        worst = 0.0
+        if name == "MixtureOfGaussiansMADE.log_prob":
+            # a shared stabilising constant cancels in exact arithmetic; it shows when one row is far from the others
+            for dt, big in ((torch.float32, 16.0), (torch.float64, 1000.0)):
+                torch.manual_seed(1)
+                net = made_n.MixtureOfGaussiansMADE(2, 8, num_blocks=1, num_mixture_components=2).to(dt).eval()
+                xb = torch.tensor([[0.1, -0.3], [big, big], [0.5, 0.2]], dtype=dt)
+                with torch.no_grad():
+                    full = net.log_prob(xb)
+                    for i in range(3):
+                        one = net.log_prob(xb[i:i + 1])
+                        dev = float((one - full[i:i + 1]).abs().max())
+                        if not (dev == dev) or bool(torch.isinf(one).any()) != bool(torch.isinf(full[i:i + 1]).any()):
+                            dev = float("inf")
+                        worst = max(worst, dev / max(1.0, float(one.abs().max()) if bool(torch.isfinite(one).all()) else 1.0))
+            res["max_relative_deviation"] = worst
+            res["reproduced"] = worst > 1e-4
+            return res
         f = fs[name]
         with torch.no_grad():
             full = f(x, ctx)
-            worst = 0.0
             for i in range(3):
                 one = f(x[i:i + 1], ctx[i:i + 1])
                 worst = max(worst, float((one - full[i:i + 1]).abs().max()))
